@@ -13,7 +13,8 @@ RULE = (
     "BaseException), n in 1..3 workers, 0..3 set_thread_count calls up and down, shutdown(cancel_pending in "
     "{True,False}) at a random point with its 5 s timeout on the virtual clock; schedules: random walk, PCT and complete "
     "single-pre-emption neighbourhoods. Checked on the recorded history: conservation (serviced once / cancelled once / "
-    "still queued, never two), FIFO hand-over (pop order == append order), worker count after resize / shutdown. "
+    "still queued, never two), FIFO hand-over (pop order == append order), no task queued next to an idle worker whenever "
+    "the virtual clock has to advance, worker count after resize / shutdown. "
     "distinct = trace hash"
 )
 ASSUMPTIONS = [
@@ -168,6 +169,17 @@ def run_scenario(scn, strat):
         for ev in list(events.values()):
             ev.set()
 
+    def idle_probe(sched):
+        # every thread is blocked and only a timer can wake one: a task still queued next to a worker
+        # that waits for work (no stop pending, no shutdown) was not handed over
+        if info["shutdown_called_step"] is not None or disp.stop_count or not disp.queue:
+            return
+        idle = [t.name for t in sched.threads if t.role == "worker" and t.state == "blocked" and t.blocked_on
+                and t.blocked_on[0] == "cond" and t.blocked_on[1] == id(disp.queue_cv)]
+        if idle:
+            hist.add("starved", sched.steps, [getattr(t, "id", None) for t in disp.queue], idle)
+
+    s.on_clock_advance = idle_probe
     # as create_server does: the pool is sized before anything is submitted
     disp.set_thread_count(scn["workers"])
     for i, sp in enumerate(scn["submitters"]):
@@ -237,6 +249,11 @@ def judge(scn, hist, w, info):
                 out.append(("task-left-queued-after-cancelling-shutdown", f"task {tid} still queued although shutdown(cancel_pending=True) returned"))
             elif not scn.get("shutdown") and info["last_resize"] > 0:
                 out.append(("task-never-handed-over", f"task {tid} still queued at quiescence with {info['last_resize']} workers requested"))
+    for e in hist.ev:
+        if e[0] == "starved":
+            out.append(("task-queued-next-to-idle-worker",
+                        f"tasks {e[2]} stayed queued while worker(s) {e[3]} waited for work (nothing but a timer could change that)"))
+            break
     # FIFO hand-over
     if order_pop != order_append[: len(order_pop)]:
         out.append(("handover-not-fifo", f"pop order {order_pop} vs append order {order_append}"))
